@@ -309,6 +309,27 @@ def run(ctx):
     diffs = []
     cs = CORPUS + cases(ctx)
     fired, kept, reals = run_cases(ctx, cs, diffs)
+    # size boundary: nesting far beyond Python's recursion limit, long runs of unclosed openers, long flat inputs (real
+    # matcher only: it must neither raise nor hang, and the answers are known in closed form)
+    for n in (900, 1100, 1500, 5000):
+        deep = [('bal:parens', '(' * n + ')' * n, 0, True, (0, 2 * n)), ('bal:parens', 'y' + '(' * n, 0, True, None),
+                ('bal:curly', 'x' + '{' * n + 'a' + '}' * n + ';', 1, False, (1, 2 * n + 2)), ('bal:parens', '()' * n, 2, True, (2, 4)),
+                ('bal:angles', '<' * n + '>' * (n - 1), 0, True, (1, 2 * n - 1))]
+        for pid, text, pos, mode, want in deep:
+            scen = {'kind': 'match', 'parts': pid, 's': text, 'pos': pos, 'search': mode}
+            ctx.count()
+            try:
+                r = real_search(pid, text, pos, mode)
+            except Hang:
+                ctx.report('matcher-hangs', f'nestedmatcher did not return within 5 s on {pid} with {n}-deep nesting', scen)
+                continue
+            except Exception as e:
+                ctx.report('matcher-raises', f'nestedmatcher raised {type(e).__name__} on {pid} with {n}-deep nesting', scen)
+                continue
+            got = tuple(r['all']) if isinstance(r, dict) else r
+            if got != want:
+                ctx.report('not-leftmost', f'{pid} on {n}-deep input pos={pos}: got {got}, expected {want}', scen)
+            ctx.nontrivial((pid, n, pos))
     for i in (3, len(kept) // 2, len(kept) - 7):
         ctx.sample({'scenario': kept[i], 'observed': reals[i]})
 
